@@ -36,7 +36,7 @@ ANCHORS = [
 RULE = ("honest PSBTs of random m-of-n wallets (1 <= m <= n <= 4; P2SH through create_multisig_psbt, P2WSH and "
         "P2SH-P2WSH through PSBT.create/update), 1..3 inputs, 1..3 outputs with or without change, summary requested "
         "with the PSBT's global xpubs and with a caller-supplied hdpubkey_map; for every honest PSBT every applicable "
-        "item of the tampering catalogue (19 items); the summary fields or REJECT are compared with the model; a case "
+        "item of the tampering catalogue (20 items; input-side items at every input position, change first / middle / last, xpubs inside the PSBT or only in the caller's map, inputs sharing one wallet address); the summary fields or REJECT are compared with the model; a case "
         "is non-trivial always; distinct = distinct (PSBT bytes, hdpubkey_map) requests")
 CLAUSES = {
     "fee = sum(inputs) - sum(outputs); spend + change + fee = sum(inputs)":
@@ -70,7 +70,11 @@ TAMPERS = ["swap_change_spk", "foreign_input_script", "foreign_output_script", "
            "wrong_path_input", "wrong_path_output", "one_cosigner_change", "utxo_amount", "other_prev_tx",
            "changed_quorum", "second_change", "nonstandard_spk_with_hash", "extra_script_commands",
            "witness_utxo_on_legacy", "missing_cosigner_key", "foreign_map_xpub",
-           "witness_script_without_witness_utxo", "redeem_on_native_segwit"]
+           "witness_script_without_witness_utxo", "redeem_on_native_segwit", "foreign_input_same_paths"]
+# items that act on one input: applied to EVERY input position of the PSBT
+INPUT_TAMPERS = {"foreign_input_script", "foreign_fingerprint", "wrong_path_input", "utxo_amount", "other_prev_tx",
+                 "witness_utxo_on_legacy", "witness_script_without_witness_utxo", "redeem_on_native_segwit",
+                 "foreign_input_same_paths"}
 TAMPER_FINDING = {"swap_change_spk": "F11b", "one_cosigner_change": "F11a", "nonstandard_spk_with_hash": "F11c",
                   "utxo_amount": "F11d", "extra_script_commands": "F11e", "witness_utxo_on_legacy": "F11f",
                   "witness_script_without_witness_utxo": "F11g", "redeem_on_native_segwit": "F11g"}
@@ -124,7 +128,7 @@ def request(cfg, raw, hmap, o):
 
 
 # ----------------------------------------------------------------------------------------- honest PSBTs
-def build_p2sh_via_helper(rng, w, n_inputs, n_spend, with_change):
+def build_p2sh_via_helper(rng, w, n_inputs, n_spend, with_change, same_addr=False, change_at=None):
     """psbt_helper.create_multisig_psbt: records [xfp, xpub at the base path, base path]"""
     from buidl.psbt_helper import create_multisig_psbt
     from buidl.script import P2WPKHScriptPubKey, P2PKHScriptPubKey
@@ -136,6 +140,8 @@ def build_p2sh_via_helper(rng, w, n_inputs, n_spend, with_change):
     b.input_index, b.prev_txs = [], []
     for _ in range(n_inputs):
         idx = rng.randrange(0, 6)
+        if same_addr and b.input_index:
+            idx = b.input_index[0]
         spk, rs, ws = w.scripts(0, idx)
         amount = rng.randrange(60_000, 400_000)
         decoy = [(rng.randrange(1000, 9000), P2PKHScriptPubKey(PC.rbytes(rng, 20))) for _ in range(rng.randrange(0, 3))]
@@ -150,7 +156,8 @@ def build_p2sh_via_helper(rng, w, n_inputs, n_spend, with_change):
     fee = rng.randrange(2_000, 12_000)
     remaining = total - fee
     n_out = n_spend + (1 if with_change else 0)
-    change_at = rng.randrange(0, n_out) if with_change else None
+    r_at = rng.randrange(0, n_out) if with_change else None
+    change_at = (change_at % n_out if change_at is not None else r_at) if with_change else None
     output_dicts = []
     b.change_pos = None
     for o in range(n_out):
@@ -173,16 +180,21 @@ def build_p2sh_via_helper(rng, w, n_inputs, n_spend, with_change):
 
 # ----------------------------------------------------------------------------------------- tampering
 def splice_input(raw, psbt, i, new_in):
-    """replace the serialisation of input map i"""
-    ser_in = psbt.psbt_ins[i].serialize()
-    pos = raw.index(ser_in)
-    return raw[:pos] + new_in + raw[pos + len(ser_in):]
+    """replace the serialisation of input map i (located by position: the input maps follow each other)"""
+    sers = [pi.serialize() for pi in psbt.psbt_ins]
+    start = raw.index(b"".join(sers))
+    pos = start + sum(len(x) for x in sers[:i])
+    assert raw[pos:pos + len(sers[i])] == sers[i]
+    return raw[:pos] + new_in + raw[pos + len(sers[i]):]
 
 
-def tamper(name, rng, b, raw):
+def tamper(name, rng, b, raw, pos=0):
     """a tampered serialisation of the honest PSBT `b.psbt` (bytes `raw`), or None when the item does not
-    apply to this wallet / PSBT.  Works on a re-parsed copy or on the bytes; never validates."""
-    from buidl.psbt import PSBTOut, NamedHDPublicKey
+    apply to this wallet / PSBT.  Input-side items act on input `pos`.  Works on a re-parsed copy or on the
+    bytes; never validates."""
+    import io as _io
+    from buidl.helper import encode_varstr
+    from buidl.psbt import PSBTOut, NamedHDPublicKey, NamedPublicKey
     from buidl.script import (RedeemScript, WitnessScript, P2SHScriptPubKey, P2WSHScriptPubKey, Script)
     from buidl.tx import TxOut
     from buidl.helper import serialize_key_value as kv
@@ -212,8 +224,8 @@ def tamper(name, rng, b, raw):
             q.psbt_outs[cpos].tx_out.script_pubkey = P2SHScriptPubKey(PC.rbytes(rng, 20))
         return q.serialize()
     if name == "foreign_input_script":
-        spk, rs, ws = w.scripts(0, (b.input_index[0] + 1) % 6 + 10)
-        pi = q.psbt_ins[0]
+        spk, rs, ws = w.scripts(0, (b.input_index[pos] + 1) % 6 + 10)
+        pi = q.psbt_ins[pos]
         if pi.witness_script is not None:
             pi.witness_script = ws
         else:
@@ -242,13 +254,13 @@ def tamper(name, rng, b, raw):
                 q.hd_pubs[repl.raw_serialize()] = repl
         return q.serialize()
     if name == "foreign_fingerprint":
-        pi = q.psbt_ins[0]
+        pi = q.psbt_ins[pos]
         sec = sorted(pi.named_pubs.keys())[rng.randrange(0, len(pi.named_pubs))]
         rp = pi.named_pubs[sec].raw_path
         renamed(pi, sec, PC.rbytes(rng, 4) + rp[4:])
         return q.serialize()
     if name in ("wrong_path_input", "wrong_path_output"):
-        holder = q.psbt_ins[0] if name == "wrong_path_input" else (q.psbt_outs[cpos] if cpos is not None else None)
+        holder = q.psbt_ins[pos] if name == "wrong_path_input" else (q.psbt_outs[cpos] if cpos is not None else None)
         if holder is None:
             return None
         sec = sorted(holder.named_pubs.keys())[rng.randrange(0, len(holder.named_pubs))]
@@ -269,8 +281,8 @@ def tamper(name, rng, b, raw):
             po.named_pubs[nm.sec()] = nm.point
         return q.serialize()
     if name == "utxo_amount":
-        pi = q.psbt_ins[0]
-        prev = b.prev_txs[0]
+        pi = q.psbt_ins[pos]
+        prev = b.prev_txs[pos]
         real = prev.tx_outs[pi.tx_in.prev_index]
         if st == "p2sh":
             # alter the amount inside the previous transaction …
@@ -281,7 +293,7 @@ def tamper(name, rng, b, raw):
             ser_in = pi.serialize()
             nw = kv(b"\x00", pi.prev_tx.serialize())
             wu = kv(b"\x01", TxOut(real.amount + 9_000, real.script_pubkey).serialize())
-            both = splice_input(raw, q, 0, nw + wu + ser_in[len(nw):])
+            both = splice_input(raw, q, pos, nw + wu + ser_in[len(nw):])
             return [alt, both]
         # witness wallets: non-witness UTXO (true) next to a witness UTXO with another amount (F11d)
         ser_in = pi.serialize()
@@ -290,11 +302,11 @@ def tamper(name, rng, b, raw):
             return None
         nw = kv(b"\x00", prev.serialize())
         wu = kv(b"\x01", TxOut(real.amount + 9_000, real.script_pubkey).serialize())
-        return splice_input(raw, q, 0, nw + wu + ser_in[len(wu_true):])
+        return splice_input(raw, q, pos, nw + wu + ser_in[len(wu_true):])
     if name == "other_prev_tx":
-        pi = q.psbt_ins[0]
-        real = b.prev_txs[0].tx_outs[pi.tx_in.prev_index]
-        other = PC.funding_tx(rng, [(o.amount, o.script_pubkey) for o in b.prev_txs[0].tx_outs])
+        pi = q.psbt_ins[pos]
+        real = b.prev_txs[pos].tx_outs[pi.tx_in.prev_index]
+        other = PC.funding_tx(rng, [(o.amount, o.script_pubkey) for o in b.prev_txs[pos].tx_outs])
         if st == "p2sh":
             pi.prev_tx = other
             return q.serialize()
@@ -302,7 +314,7 @@ def tamper(name, rng, b, raw):
         wu_true = kv(b"\x01", pi.prev_out.serialize())
         if not ser_in.startswith(wu_true):
             return None
-        return splice_input(raw, q, 0, kv(b"\x00", other.serialize()) + ser_in)
+        return splice_input(raw, q, pos, kv(b"\x00", other.serialize()) + ser_in)
     if name == "changed_quorum":
         if cpos is None or w.n < 2:
             return None
@@ -360,7 +372,7 @@ def tamper(name, rng, b, raw):
     if name == "witness_utxo_on_legacy":
         if st != "p2sh" or w.n < 2:
             return None
-        pi = q.psbt_ins[0]
+        pi = q.psbt_ins[pos]
         real = pi.prev_tx.tx_outs[pi.tx_in.prev_index]
         ser_in = pi.serialize()
         nw = kv(b"\x00", pi.prev_tx.serialize())
@@ -371,12 +383,12 @@ def tamper(name, rng, b, raw):
         body = ser_in[len(nw):]
         if rs_old not in body:
             return None
-        return splice_input(raw, q, 0, kv(b"\x01", TxOut(real.amount, real.script_pubkey).serialize()) + body.replace(rs_old, rs_new))
+        return splice_input(raw, q, pos, kv(b"\x01", TxOut(real.amount, real.script_pubkey).serialize()) + body.replace(rs_old, rs_new))
     if name in ("witness_script_without_witness_utxo", "redeem_on_native_segwit"):
         # F11g: a p2wsh input whose multisig script PSBTIn.validate never compared with the ScriptPubKey
         if st != "p2wsh" or w.n < 2:
             return None
-        pi = q.psbt_ins[0]
+        pi = q.psbt_ins[pos]
         ser_in = pi.serialize()
         wu = kv(b"\x01", pi.prev_out.serialize())
         ws_old = kv(b"\x05", pi.witness_script.raw_serialize())
@@ -387,9 +399,35 @@ def tamper(name, rng, b, raw):
         if name == "witness_script_without_witness_utxo":
             # only the non-witness UTXO, and a WitnessScript with another threshold
             body = ser_in[len(wu):].replace(ws_old, kv(b"\x05", WitnessScript(foreign).raw_serialize()))
-            return splice_input(raw, q, 0, kv(b"\x00", b.prev_txs[0].serialize()) + body)
+            return splice_input(raw, q, pos, kv(b"\x00", b.prev_txs[pos].serialize()) + body)
         # the witness UTXO stays; the script travels as a RedeemScript
-        return splice_input(raw, q, 0, ser_in.replace(ws_old, kv(b"\x04", RedeemScript(foreign).raw_serialize())))
+        return splice_input(raw, q, pos, ser_in.replace(ws_old, kv(b"\x04", RedeemScript(foreign).raw_serialize())))
+    if name == "foreign_input_same_paths":
+        # input `pos` spends a UTXO locked to a FOREIGN script of the same shape; the script and UTXO attached are
+        # consistent with each other, the derivation records name the foreign keys but carry the fingerprints and
+        # exact paths of a genuine input (an earlier one when there is one)
+        other = PC.make_wallet(rng, w.m, w.n, st)
+        spk2, rs2, ws2 = other.scripts(0, b.input_index[pos])
+        pi = q.psbt_ins[pos]
+        src = q.psbt_ins[pos - 1] if pos > 0 else pi
+        amount = pi.tx_in._value
+        prev2 = PC.funding_tx(rng, [(amount, spk2)])
+        genuine = sorted((np_.raw_path for np_ in src.named_pubs.values()))
+        foreign_secs = sorted(other.secs(0, b.input_index[pos]))
+        pi.tx_in.prev_tx, pi.tx_in.prev_index = prev2.hash(), 0
+        pi.tx_in._script_pubkey = spk2
+        if pi.prev_tx is not None:
+            pi.prev_tx = prev2
+        if pi.prev_out is not None:
+            pi.prev_out = prev2.tx_outs[0]
+        if pi.redeem_script is not None:
+            pi.redeem_script = rs2
+        if pi.witness_script is not None:
+            pi.witness_script = ws2
+        pi.named_pubs = {}
+        for sec, rp in zip(foreign_secs, genuine):
+            pi.named_pubs[sec] = NamedPublicKey.parse(b"\x06" + sec, _io.BytesIO(encode_varstr(rp)), network=PC.NET)
+        return q.serialize()
     if name == "missing_cosigner_key":
         if cpos is None or w.n < 2:
             return None
@@ -407,15 +445,24 @@ def psbt_job(spec):
     w = PC.make_wallet(rng, spec["m"], spec["n"], spec["stype"])
     lines, preds = [], []
     case0 = {"spec": spec}
+    in_psbt = spec.get("xpubs_in_psbt", True)
     if spec["stype"] == "p2sh" and spec["via_helper"]:
-        b = build_p2sh_via_helper(rng, w, spec["n_inputs"], spec["n_spend"], spec["change"])
+        b = build_p2sh_via_helper(rng, w, spec["n_inputs"], spec["n_spend"], spec["change"],
+                                  same_addr=spec.get("same_addr", False), change_at=spec.get("change_at"))
+        if not in_psbt:
+            b.psbt.hd_pubs = {}          # a "slimmed down" PSBT: the caller has to supply the xpubs
     else:
         b = PC.build_psbt(rng, w, n_inputs=spec["n_inputs"], n_spend=spec["n_spend"], with_change=spec["change"],
-                          global_xpubs=True, unknowns=spec["unknowns"])
+                          global_xpubs=in_psbt, unknowns=spec["unknowns"], same_addr=spec.get("same_addr", False),
+                          change_at=spec.get("change_at"))
     raw = b.psbt.serialize()
-    maps = [("global xpubs", None), ("caller map", w.hdpubkey_map())]
-    honest = None
-    for label, hmap in maps:
+    # the two ways of giving describe_basic_multisig the cosigners' xpubs
+    styles = ([("global xpubs", None)] if in_psbt else []) + [("caller map", w.hdpubkey_map())]
+    if not in_psbt:
+        ans, o = describe_real(raw, None)
+        lines.append(("describe_honest", dict(case0, map="no xpubs at all"), request("fixed", raw, None, o), ans))
+        preds.append(("no_xpubs_refused", dict(case0, pred="no_xpubs_refused"), ans == REJECT, ans[:80], REJECT))
+    for label, hmap in styles:
         ans, o = describe_real(raw, hmap)
         lines.append(("describe_honest", dict(case0, map=label), request("fixed", raw, hmap, o), ans))
         if spec["stype"] == "p2sh-p2wsh":
@@ -427,7 +474,6 @@ def psbt_job(spec):
             preds.append(("honest_described", dict(case0, pred="honest_described", map=label), False, REJECT, "a summary"))
             continue
         preds.append(("honest_described", dict(case0, pred="honest_described", map=label), True, "summary", "a summary"))
-        honest = ans
         t = ans.split(" ")
         fee, tin, tout, spend, change = (int(x) for x in t[:5])
         outs = b.tx_obj.tx_outs
@@ -442,38 +488,43 @@ def psbt_job(spec):
                       [fee, tin, tout, spend, change], [b.fee, b.total_in, sum(o.amount for o in outs)]))
         preds.append(("honest_change_labels_exact", dict(case0, pred="honest_change_labels_exact", map=label),
                       got_change == want_change, got_change, want_change))
-    # tampering catalogue
+    # tampering catalogue: input-side items at EVERY input position, output-side items on the change output
+    # (whose position the spec moves through first / middle / last), each with every applicable xpub style
     for name in TAMPERS:
-        trng = random.Random(f"{spec['seed']}:{name}")
-        if name == "foreign_map_xpub":
-            other = PC.make_wallet(trng, w.m, w.n, w.stype)
-            hmap = w.hdpubkey_map()
-            k = trng.randrange(0, w.n)
-            hmap[w.xfps[k]] = other.hdpubkey_map()[other.xfps[0]]
-            variants = [(raw, hmap)]
-        else:
-            try:
-                t = tamper(name, trng, b, raw)
-            except Exception as e:
-                import traceback
-                raise RuntimeError(f"tamper {name} failed on {spec}: {traceback.format_exc()[-600:]}")
-            if t is None:
-                continue
-            ts = t if isinstance(t, list) else [t]
-            variants = []
-            for tr in ts:
-                if tr == raw:
+        positions = list(range(spec["n_inputs"])) if name in INPUT_TAMPERS else [0]
+        for pos in positions:
+            trng = random.Random(f"{spec['seed']}:{name}:{pos}")
+            if name == "foreign_map_xpub":
+                other = PC.make_wallet(trng, w.m, w.n, w.stype)
+                hmap = w.hdpubkey_map()
+                k = trng.randrange(0, w.n)
+                hmap[w.xfps[k]] = other.hdpubkey_map()[other.xfps[0]]
+                variants = [(raw, hmap)]
+            else:
+                try:
+                    t = tamper(name, trng, b, raw, pos)
+                except Exception:
+                    import traceback
+                    raise RuntimeError(f"tamper {name}@{pos} failed on {spec}: {traceback.format_exc()[-600:]}")
+                if t is None:
                     continue
-                variants.append((tr, None))
-                if name != "foreign_xpub":
-                    variants.append((tr, w.hdpubkey_map()))
-        for vi, (traw, hmap) in enumerate(variants):
-            ans, o = describe_real(traw, hmap)
-            c = dict(case0, tamper=name, variant=vi)
-            lines.append(("describe_tampered", c, request("fixed", traw, hmap, o), ans))
-            preds.append(("tampered_rejected", dict(c, pred="tampered_rejected"), ans == REJECT, ans[:160], REJECT))
+                variants = []
+                for tr in (t if isinstance(t, list) else [t]):
+                    if tr == raw:
+                        continue
+                    for label, hmap in styles:
+                        if name == "foreign_xpub" and hmap is not None:
+                            continue        # a caller-supplied map overrides the PSBT's own xpubs
+                        variants.append((tr, hmap))
+            for vi, (traw, hmap) in enumerate(variants):
+                ans, o = describe_real(traw, hmap)
+                c = dict(case0, tamper=name, pos=pos, variant=vi, style="caller map" if hmap else "global xpubs")
+                lines.append(("describe_tampered", c, request("fixed", traw, hmap, o), ans))
+                preds.append(("tampered_rejected", dict(c, pred="tampered_rejected"), ans == REJECT, ans[:160], REJECT))
     return {"lines": lines, "preds": preds, "stats": {"stype": spec["stype"], "m": spec["m"], "n": spec["n"],
-                                                      "helper": bool(spec["stype"] == "p2sh" and spec["via_helper"])}}
+                                                      "helper": bool(spec["stype"] == "p2sh" and spec["via_helper"]),
+                                                      "inputs": spec["n_inputs"], "in_psbt": in_psbt,
+                                                      "same_addr": bool(spec.get("same_addr"))}}
 
 
 # ----------------------------------------------------------------------------------------- findings
@@ -506,7 +557,7 @@ def psbt_specs(ctx):
     specs = []
     combos = [(st, m, n) for st in ("p2sh", "p2wsh") for n in range(1, 5) for m in range(1, n + 1)]
     extra = [("p2sh-p2wsh", 2, 3), ("p2sh-p2wsh", 1, 2)]
-    total = int(os.environ.get("VERIF_C11_PSBTS", "0")) or ctx.n(100, 1200)   # env knob: debugging only
+    total = int(os.environ.get("VERIF_C11_PSBTS", "0")) or ctx.n(72, 1200)   # env knob: debugging only
     for k in range(total):
         if k < len(combos):
             st, m, n = combos[k]
@@ -514,9 +565,16 @@ def psbt_specs(ctx):
             st, m, n = extra[k - len(combos)]
         else:
             st, m, n = rng.choice(combos)
-        specs.append({"seed": f"C11:{ctx.seed}:psbt:{k}", "m": m, "n": n, "stype": st, "n_inputs": 1 + (k % 3),
-                      "n_spend": rng.choice([1, 1, 2]), "change": rng.random() < 0.8, "unknowns": rng.random() < 0.3,
-                      "via_helper": rng.random() < 0.7})
+        n_inputs = 1 + (k % 3)
+        specs.append({"seed": f"C11:{ctx.seed}:psbt:{k}", "m": m, "n": n, "stype": st, "n_inputs": n_inputs,
+                      "n_spend": 1 + (k // 3) % 2, "change": k % 5 != 4, "unknowns": rng.random() < 0.3,
+                      "via_helper": rng.random() < 0.7,
+                      # xpubs inside the PSBT (both call styles possible) or only handed in by the caller
+                      "xpubs_in_psbt": k % 2 == 0,
+                      # several inputs spending UTXOs of ONE wallet address (same script, same derivation paths)
+                      "same_addr": n_inputs > 1 and (k // 2) % 2 == 0,
+                      # the change output first / middle / last
+                      "change_at": k % 3})
     return specs
 
 
@@ -534,7 +592,14 @@ def _job(j):
 def run(ctx):
     rec = ctx.rec
     drv = ctx.driver("drv_c11")
-    jobs = [("findings", None)] + [("psbt", s) for s in psbt_specs(ctx)]
+    specs = psbt_specs(ctx)
+    jobs = [("findings", None)] + [("psbt", s) for s in specs]
+    # line-coverage sample (replayed in-process by ./check): a helper-built P2SH PSBT and a P2WSH one, small
+    for want_helper in (True, False):
+        for s0 in sorted(specs, key=lambda s: s["n"] * s["n_inputs"]):
+            if (s0["stype"] == "p2sh" and s0["via_helper"]) == want_helper and s0["n"] >= 2 and s0["stype"] != "p2sh-p2wsh":
+                rec.cov_pred("psbt_summary", {"spec": s0})
+                break
     jobs.sort(key=lambda j: -(j[1]["n"] * j[1]["n_inputs"] if j[0] == "psbt" else 99))
     outs = pmap(_job, jobs, workers=ctx.workers, chunksize=1)
     all_lines = []
@@ -550,11 +615,13 @@ def run(ctx):
                 rec.sample(pk, case, limit=1)
                 if pk == "tampered_rejected":
                     rec.count("tamper:" + case["tamper"])
+                    rec.count(f"tamper-position:{case['pos']}:{case['style']}")
             else:
                 rec.violation(pk, case, got, want, finding=TAMPER_FINDING.get(case.get("tamper")))
         if kind == "psbt":
             s = res["stats"]
             rec.count(f"psbt:{s['stype']}:{s['m']}of{s['n']}" + (":helper" if s["helper"] else ""))
+            rec.count(f"shape:{s['inputs']}in:" + ("xpubs-in-psbt" if s["in_psbt"] else "caller-map-only") + (":same-address" if s["same_addr"] else ""))
     answers = batch_parallel(drv, [l[2] for l in all_lines], workers=ctx.workers)
     for (kind, case, line, impl), model in zip(all_lines, answers):
         c = dict(case, line=line if len(line) < 60000 else line[:60000])
@@ -594,9 +661,10 @@ def replay(ctx, v):
         return False
     res = psbt_job(spec)
     for pk, c, ok, got, want in res["preds"]:
-        if pk == v["kind"] and not ok and c.get("tamper") == case.get("tamper"):
+        if pk == v["kind"] and not ok and c.get("tamper") == case.get("tamper") and c.get("pos") == case.get("pos"):
             return True
-    lines = [l for l in res["lines"] if l[0] == v["kind"] and l[1].get("tamper") == case.get("tamper")]
+    lines = [l for l in res["lines"] if l[0] == v["kind"] and l[1].get("tamper") == case.get("tamper")
+             and l[1].get("pos") == case.get("pos")]
     if lines:
         answers = ctx.driver("drv_c11").batch([l[2] for l in lines])
         for (k, c, line, impl), model in zip(lines, answers):
@@ -605,10 +673,28 @@ def replay(ctx, v):
     return False
 
 
-PREDICATES = {
+PREDICATE_DOC = {
     "honest_described": "an honest P2SH / P2WSH PSBT is summarised (no exception)",
     "p2sh_p2wsh_unsupported": "P2SH-P2WSH inputs are refused altogether (documented limitation), also by the model",
     "honest_sums_add_up": "fee = inputs - outputs = the fee the wallet intended; spend + change + fee = inputs",
     "honest_change_labels_exact": "is_change is true for the wallet's change output and for no other output",
+    "no_xpubs_refused": "without global xpubs and without hdpubkey_map the summary is refused",
     "tampered_rejected": "every applicable item of the tampering catalogue makes describe_basic_multisig raise",
 }
+
+
+def p_psbt_summary(case):
+    """one honest PSBT (create_multisig_psbt or create + update), both xpub styles, the whole tampering catalogue"""
+    res = psbt_job(case["spec"])
+    bad = [(k, c.get("tamper"), c.get("pos"), got) for k, c, ok, got, want in res["preds"] if not ok]
+    return not bad, bad[:5], []
+
+
+PREDICATES = {"psbt_summary": p_psbt_summary}
+
+
+def eval_pred(kind, case):
+    try:
+        return PREDICATES[kind](case)
+    except Exception as e:
+        return False, "raised " + type(e).__name__, "no exception"
